@@ -724,6 +724,55 @@ pub fn cmd_sweep_c13(args: &[String]) {
         cc::crypto_scalarmult_base(&mut base, &dxs);
         if base != dxp { rep.fail("converted Ed25519 pair is not consistent: base * xsk != xpk", json!({"i": i})); }
     }
+    // Ed25519 public keys with rare byte patterns (y close to 2^255: top byte 0x7f/0xff, low byte >= 0xed, 0xff bytes inside):
+    // found by search over counter seeds; conversion must equal libsodium's like for any other key
+    {
+        let mut found = [0usize; 4];
+        let mut ctr = 0u64;
+        while ctr < 400_000 && (found[0] < 6 || found[1] < 4 || found[2] < 3 || found[3] < 6) {
+            ctr += 1;
+            let mut sd = [0u8; 32];
+            sd[..8].copy_from_slice(&ctr.to_le_bytes()); sd[8] = (seed & 0xff) as u8;
+            let (mut ep, mut esk) = ([0u8; 32], [0u8; 64]);
+            unsafe { so::crypto_sign_seed_keypair(ep.as_mut_ptr(), esk.as_mut_ptr(), sd.as_ptr()) };
+            let top = ep[31] & 0x7f == 0x7f;
+            let class = if top && ep[0] >= 0xed && ep[1..31].iter().any(|b| *b == 0xff) { 2 } else if top && ep[0] >= 0xed { 1 } else if top { 0 }
+                        else if ep.iter().filter(|b| **b == 0xff).count() >= 2 || ep[31] & 0x7f == 0 { 3 } else { continue };
+            if found[class] >= 6 { continue; }
+            found[class] += 1;
+            rep.case(&format!("rarepk|{}", hex(&ep)));
+            let (mut xp, mut dxp) = ([0u8; 32], [0u8; 32]);
+            let src = unsafe { so::crypto_sign_ed25519_pk_to_curve25519(xp.as_mut_ptr(), ep.as_ptr()) };
+            let r = ced::crypto_sign_ed25519_pk_to_curve25519(&mut dxp, &ep);
+            rep.evaluations += 2;
+            if (src == 0) != r.is_ok() || (src == 0 && dxp != xp) { rep.fail("crypto_sign_ed25519_pk_to_curve25519 differs from libsodium on a public key with a rare byte pattern", json!({"pk": hex(&ep), "class": class})); }
+            let (dp, dsk) = csg::crypto_sign_seed_keypair(&sd);
+            if dp != ep || dsk != esk { rep.fail("crypto_sign_seed_keypair differs from libsodium", json!({"pk": hex(&ep)})); }
+        }
+        rep.add("rare_public_key_patterns_found", found.iter().sum::<usize>() as u64);
+    }
+    // a key pair derived with an Argon2i configuration (such a Config only comes out of a parsed string or of serde):
+    // libsodium's minimum pass count for Argon2i (3) and above
+    for (t, mem) in [(3u64, 8192usize), (4, 8192), (3, 16384), (5, 12288)] {
+        let pw = rng.bytes(9);
+        let salt = rng.bytes(16);
+        let mut sbuf = [0i8; 128];
+        let rc = unsafe { so::crypto_pwhash_str_alg(sbuf.as_mut_ptr(), pw.as_ptr() as *const _, pw.len() as u64, t, mem, 1) };
+        if rc != 0 { rep.fail("HARNESS: libsodium could not produce an Argon2i string", json!({"t": t})); continue; }
+        let sref: String = sbuf.iter().take_while(|c| **c != 0).map(|c| *c as u8 as char).collect();
+        rep.evaluations += 1;
+        rep.case(&format!("argon2i-keypair|{}|{}", t, mem));
+        let cfg = match dryoc::pwhash::PwHash::<Vec<u8>, Vec<u8>>::from_string(&sref) { Ok(p) => p.into_parts().2, Err(e) => { rep.fail("PwHash::from_string rejects a libsodium Argon2i string", json!(format!("{:?}", e))); continue; } };
+        let kp: Result<dryoc::dryocbox::KeyPair, _> = dryoc::pwhash::PwHash::<Vec<u8>, Vec<u8>>::derive_keypair(&pw, salt.clone(), cfg);
+        let mut want_sk = [0u8; 32];
+        let rc = unsafe { so::crypto_pwhash(want_sk.as_mut_ptr(), 32, pw.as_ptr() as *const _, pw.len() as u64, salt.as_ptr(), t, mem, 1) };
+        let mut want_pk = [0u8; 32];
+        unsafe { so::crypto_scalarmult_base(want_pk.as_mut_ptr(), want_sk.as_ptr()) };
+        match kp {
+            Ok(kp) => if rc != 0 || kp.secret_key.as_slice() != want_sk || kp.public_key.as_slice() != want_pk { rep.fail("PwHash::derive_keypair (Argon2i) differs from libsodium's construction", json!({"t": t, "mem": mem})); },
+            Err(e) => if rc == 0 { rep.fail("PwHash::derive_keypair refuses Argon2i parameters libsodium accepts", json!({"t": t, "mem": mem, "err": format!("{:?}", e)})); },
+        }
+    }
     // key pair derived from a password: secret = Argon2(password), public = base * secret
     for i in 0..16u64 {
         let pw = rng.bytes(5 + i as usize);
@@ -775,6 +824,8 @@ pub fn cmd_sweep_c09(args: &[String]) {
     }
     // passes and memory sizes, including sizes that are not a multiple of 4 KiB (segment rounding)
     let mems: Vec<u64> = if thorough { (8..=64).chain([100, 127, 128, 129, 255, 256, 257, 511, 512, 1000, 1024, 2047, 2048, 4096]).collect() } else { vec![8, 9, 10, 11, 12, 13, 15, 16, 17, 19, 23, 31, 32, 33, 63, 64, 65, 127, 128, 129, 255, 256, 513, 1024] };
+    // segment lengths (memory / 4) above one 128-entry address block and not a multiple of it; slice boundaries
+    let mems: Vec<u64> = mems.into_iter().chain([511u64, 512, 515, 516, 520, 1000, 1023, 1500, 2051, 4000]).collect();
     for &m in mems.iter() {
         for t in 1..=(if thorough { 6 } else { 4 }) {
             case(&mut rep, &mut rng, 2, t, m, 32, 9);
@@ -804,6 +855,34 @@ pub fn cmd_sweep_c09(args: &[String]) {
                 Ok(Err(_)) => {}
                 Ok(Ok(_)) => rep.fail("PwHash::hash_with_salt accepts an out-of-range parameter", json!(what)),
                 Err(p) => rep.fail("PwHash::hash_with_salt panics on an out-of-range parameter", json!({"what": what, "panic": p})),
+            }
+        }
+        // the builder of the object API: every order of the with_* calls and every preset as a starting point configure the
+        // same hash (a setter keeps what the other setters set)
+        {
+            use dryoc::pwhash::{Config, PwHash};
+            let (t, mem, hl, sl) = (2u64, 16 * 1024usize, 40usize, 24usize);
+            let salt24 = rng.bytes(sl);
+            let mut want = vec![0u8; hl];
+            let rc = unsafe { so::crypto_pwhash(want.as_mut_ptr(), hl as u64, pw.as_ptr() as *const _, pw.len() as u64, salt24.as_ptr(), t, mem, 2) };
+            // libsodium needs a 16-byte salt; for other salt lengths the classic function (checked above against libsodium) is the reference
+            let mut want2 = vec![0u8; hl];
+            let _ = rc;
+            cp::crypto_pwhash(&mut want2, &pw, &salt24, t, mem, cp::PasswordHashAlgorithm::Argon2id13).unwrap();
+            let setters: [(&str, fn(Config) -> Config); 4] = [("opslimit", |c| c.with_opslimit(2)), ("memlimit", |c| c.with_memlimit(16 * 1024)), ("hash_length", |c| c.with_hash_length(40)), ("salt_length", |c| c.with_salt_length(24))];
+            let perms: [[usize; 4]; 8] = [[0, 1, 2, 3], [1, 0, 2, 3], [1, 2, 3, 0], [3, 2, 1, 0], [2, 0, 3, 1], [0, 3, 1, 2], [2, 3, 0, 1], [3, 0, 2, 1]];
+            for (bn, base) in [("interactive", Config::interactive as fn() -> Config), ("moderate", Config::moderate), ("sensitive", Config::sensitive), ("default", Config::default)] {
+                for perm in perms.iter() {
+                    let mut c = base();
+                    for &i in perm.iter() { c = (setters[i].1)(c); }
+                    rep.evaluations += 1;
+                    let order: Vec<&str> = perm.iter().map(|&i| setters[i].0).collect();
+                    match catch(|| PwHash::<Vec<u8>, Vec<u8>>::hash_with_salt(&pw, salt24.clone(), c)) {
+                        Ok(Ok(p)) => { let (h, _s, _c) = p.into_parts(); if h != want2 { rep.fail("PwHash: the configuration depends on the order of the with_* calls", json!({"preset": bn, "order": order, "got_len": h.len()})); } }
+                        Ok(Err(e)) => rep.fail("PwHash::hash_with_salt failed on a built configuration", json!({"preset": bn, "order": order, "err": format!("{:?}", e)})),
+                        Err(pn) => rep.fail("PwHash::hash_with_salt panicked on a built configuration", json!({"preset": bn, "order": order, "panic": pn})),
+                    }
+                }
             }
         }
         // salts shorter than 8 bytes are outside Argon2's domain
